@@ -161,7 +161,10 @@ class WSession:
             elif act == "flush":
                 g.flush()
             elif act == "teardown":
-                g.teardown()
+                if d.get("nowait"):
+                    g.teardown(wait=False)        # "do not wait for pending operations": a file output still has to hold its lines
+                else:
+                    g.teardown()
             else:
                 raise KeyError(act)
         except Exception as e:
